@@ -17,7 +17,8 @@ var (
 	intAtoms  = []string{"i0", "i1", "i-1", "i7", "i9223372036854775807"}
 	oddAtoms  = []string{"s-", sTok("héllo ✓"), sTok("nil"), "i-9223372036854775808"}
 	memTTLs   = []string{"0", "0", strconv.Itoa(shortNS), strconv.Itoa(shortNS), strconv.Itoa(longNS)}
-	oddTTLs   = []string{"-1", "-3600000000000", "90000000000000"}
+	oddTTLs   = []string{"-1", "-3600000000000", "90000000000000", "9223372036854775807", "-9223372036854775808"}
+	rSubNS    = "500000000" // Redis: 0.5 s (below the one-second resolution of EXPIRE)
 	incrDelta = []string{"1", "1", "2", "-3", "0", "9223372036854775807", "-9223372036854775808"}
 )
 
@@ -66,6 +67,9 @@ func memCall1(r *vc.Rand, g *genState, k, a, f, ttl string) string {
 		g.wrote(k, "", ttl)
 		return strings.TrimSpace(fmt.Sprintf("setl %s %d %s", k, n, strings.Join(as, " "))) + " " + ttl
 	case 3, 4:
+		if r.Intn(4) == 0 {
+			return "watch " + k
+		}
 		return "get " + k
 	case 5:
 		return "del " + k
@@ -183,6 +187,9 @@ func genMem(r *vc.Rand, thorough bool) []string {
 				continue
 			}
 			k := memKeys[r.Intn(nk)]
+			if r.Intn(25) == 0 {
+				k = "-" // the empty key
+			}
 			c, wrote := memCall(r, g, k)
 			b = append(b, c)
 			if wrote {
@@ -206,7 +213,7 @@ func redCall(r *vc.Rand, g *genState) (string, string, bool) {
 	if r.Intn(5) == 0 {
 		a = vc.Pick(r, strAtoms)
 	}
-	ttl := g.ttl(r, k, []string{"0", strconv.Itoa(rShortNS), strconv.Itoa(longNS)}, nil)
+	ttl := g.ttl(r, k, []string{"0", strconv.Itoa(rShortNS), strconv.Itoa(longNS), rSubNS}, nil)
 	c := redCall1(r, g, k, a, ttl)
 	switch strings.Fields(c)[0] {
 	case "set", "nx", "cas", "exp":
@@ -272,8 +279,8 @@ func redCall1(r *vc.Rand, g *genState, k, a, ttl string) string {
 func genRed(r *vc.Rand, thorough bool) []string {
 	var out []string
 	ttls := []string{"0", strconv.Itoa(rShortNS), strconv.Itoa(longNS)}
-	// exhaustive small scope on a kv key, all ttl combinations
-	out = append(out, triples("red", "a", ttls, rSleepNS, true)...)
+	// exhaustive small scope on a kv key, all ttl combinations (incl. a sub-second lifetime)
+	out = append(out, triples("red", "a", append([]string{rSubNS}, ttls...), rSleepNS, true)...)
 	// storage_based_lock.go call shapes on the Redis backend
 	nlock := 100
 	if thorough {
@@ -293,6 +300,9 @@ func genRed(r *vc.Rand, thorough bool) []string {
 			if r.Intn(9) == 0 {
 				b = append(b, "sl "+strconv.Itoa(rSleepNS))
 				continue
+			}
+			if r.Intn(6) == 0 {
+				b = append(b, "cl "+strconv.Itoa(r.Intn(2))) // the next calls come from the other node
 			}
 			c, k, wrote := redCall(r, g)
 			b = append(b, c)
@@ -381,6 +391,7 @@ func genConc(r *vc.Rand, thorough bool) []string {
 		// an answer of GetList looked at twice while other callers remove non-last members / append
 		"hammer 8 "+it+" app l "+x+" app l "+y+" app l "+x+" rem l "+x+" rem l "+y+" ; holdcheck l ; holdcheck l ; app l "+sTok("z")+" rem l "+sTok("z")+" ; holdcheck l",
 		"hammer 6 "+it+" incr c 1 ; get c ; ttl c ; exp c 0 ; cas c i1 i2 0",
+		"hammer 16 "+it+" "+hwr+" set w "+x+" 0 del w ; watch w ; watch w ; get w",
 		"hammer 6 "+it+" set a "+x+" 1000000 ; hget a f ; hall a ; ttl a ; gc ; nx a "+y+" 1000000 ; exp a 1000000",
 	)
 	// the real sweep (direct calls / StartCleanup ticker) against concurrent re-writes of expired keys
